@@ -36,3 +36,301 @@ Definition ven_mismatch_unshared (c : vcase) : bool :=
   let cmp := if existsb file_has_compose (c_files c) then perm_eqb builder_eqb else builders_eqb in
   negb (res_eqb cmp (apply_to_unshared (c_ss c) (c_files c) (c_lang c) (c_before c)) (c_after c)).
 Definition ven_interference (c : vcase) : bool := interference (c_ss c) (c_files c) (c_lang c) (c_before c).
+
+(* ---------------------------------------------------------------- WT: a builder is well-typed *)
+(* types compared up to the default recorded on the type itself (struct_fields_as_arguments
+   copies the option's default onto the argument and path-item types) *)
+Definition ty_eqb_nd (a b : ty) : bool := ty_eqb (set_default a DNil) (set_default b DNil).
+Definition ty_eqb_nn (a b : ty) : bool := ty_eqb (set_nullable a false) (set_nullable b false).
+
+(* the chain: every field item names a field of the struct the previous item leads to (through
+   references, or through the TypeHint of an `any` item), with that field's type; an index item
+   only follows a map or an array and records its value type; no item is a root variable *)
+Fixpoint path_ok_go (ss : schemas) (cur : ty) (p : path) : bool :=
+  match p with
+  | [] => true
+  | it :: rest =>
+      negb (pi_root it) &&
+      match pi_typehint it with None => true | Some _ => is_any (pi_type it) end &&
+      let next := match pi_typehint it with Some h => h | None => pi_type it end in
+      match pi_index it with
+      | None =>
+          match resolve_total ss cur with
+          | TStruct _ _ fs =>
+              match field_by_name fs (pi_id it) with
+              | Some f => ty_eqb_nd (f_type f) (pi_type it) && path_ok_go ss next rest
+              | None => false
+              end
+          | _ => false
+          end
+      | Some _ =>
+          match resolve_total ss cur with
+          | TMap _ _ v => ty_eqb_nd v (pi_type it) && path_ok_go ss next rest
+          | TArray _ v => ty_eqb_nd v (pi_type it) && path_ok_go ss next rest
+          | _ => false
+          end
+      end
+  end.
+Definition path_ok (ss : schemas) (root : ty) (p : path) : bool :=
+  match p with [] => false | _ => path_ok_go ss root p end.
+
+(* an argument is declared when the option/constructor lists it: same name, same type up to
+   nullability (the constructor copy made by promote_options_to_constructor is never nullable) *)
+Definition arg_declared (args : list argument) (a : argument) : bool :=
+  existsb (fun d => seqb (a_name d) (a_name a) && ty_eqb_nn (a_type d) (a_type a)) args.
+
+Definition path_args (p : path) : list argument :=
+  flat_map (fun it => match pi_index it with Some ix => match px_arg ix with Some a => [a] | None => [] end | None => [] end) p.
+Fixpoint avalue_args (v : avalue) : list argument :=
+  match v with
+  | AValue arg _ env =>
+      (match arg with Some a => [a] | None => [] end) ++
+      match env with
+      | Some (_, vals) => (fix go (l : list (path * avalue)) : list argument :=
+                             match l with [] => [] | (p, x) :: r => path_args p ++ avalue_args x ++ go r end) vals
+      | None => []
+      end
+  end.
+Definition assignment_args (a : assignment) : list argument :=
+  path_args (as_path a) ++ avalue_args (as_value a) ++ map ac_arg (as_constraints a).
+
+(* envelope contents: relative paths inside the envelope type *)
+Fixpoint avalue_paths_ok (ss : schemas) (v : avalue) : bool :=
+  match v with
+  | AValue _ _ None => true
+  | AValue _ _ (Some (t, vals)) =>
+      (fix go (l : list (path * avalue)) : bool :=
+         match l with [] => true | (p, x) :: r => path_ok ss t p && avalue_paths_ok ss x && go r end) vals
+  end.
+
+Definition assignment_ok (ss : schemas) (root : ty) (args : list argument) (a : assignment) : bool :=
+  path_ok ss root (as_path a) && avalue_paths_ok ss (as_value a) && forallb (arg_declared args) (assignment_args a).
+Definition WT (ss : schemas) (b : builder) : bool :=
+  forallb (assignment_ok ss (o_type (b_for b)) (ct_args (b_ctor b))) (ct_assignments (b_ctor b)) &&
+  forallb (fun o => forallb (assignment_ok ss (o_type (b_for b)) (op_args o)) (op_assignments o)) (b_options b).
+Definition WTs (ss : schemas) (bs : list builder) : bool := forallb (WT ss) bs.
+
+(* the builders describe objects of these schemas *)
+Definition consistent (ss : schemas) (bs : list builder) : bool :=
+  forallb (fun b => match locate_object ss (o_selfpkg (b_for b)) (o_selfname (b_for b)) with
+                    | Some o => object_eqb o (b_for b)
+                    | None => false
+                    end) bs.
+
+(* rule parameters that are themselves well-formed: an added option only uses the arguments it
+   declares (cog does not check this); add_assignment with an argument value cannot be judged
+   without the option it lands on and is kept outside the WT claim *)
+Fixpoint vvalue_args (v : vvalue) : list argument :=
+  match v with
+  | VValue arg _ env =>
+      (match arg with Some a => [a] | None => [] end) ++
+      match env with
+      | Some vals => (fix go (l : list (string * vvalue)) : list argument :=
+                        match l with [] => [] | (_, x) :: r => vvalue_args x ++ go r end) vals
+      | None => []
+      end
+  end.
+Definition voption_wf (o : voption) : bool :=
+  forallb (fun a => forallb (arg_declared (vo_args o)) (vvalue_args (va_value a))) (vo_assignments o).
+Definition ybrule_wf (r : ybrule) : bool :=
+  match r with YBAddOption _ o :: _ => voption_wf o | _ => true end.
+Definition yorule_wf (r : yorule) : bool :=
+  match r with YOAddAssignment _ a :: _ => match vvalue_args (va_value a) with [] => true | _ => false end | _ => true end.
+Definition files_wf (fs : list vfile) : bool :=
+  forallb (fun f => forallb ybrule_wf (vf_builders f) && forallb yorule_wf (vf_options f)) fs.
+
+(* ---------------------------------------------------------------- frame *)
+Definition header_of (b : builder) : lbuilder := label_builder [] (mkBuilder (b_for b) (b_pkg b) (b_name b) [] (mkConstructor [] []) [] []).
+Definition brule_selector (r : brule) : bselector :=
+  match r with
+  | BROmit s | BRRename s _ | BRMergeInto s _ _ _ _ | BRCompose s _ | BRProperties s _ | BRDuplicate s _ _
+  | BRInitialize s _ | BRPromote s _ | BRAddOption s _ | BRAddFactory s _ => s
+  end.
+Definition rules_in_order (lrs : list language_rules) (lang : string) : list brule * list orule :=
+  (builder_rules_for all_languages lrs ++ builder_rules_for lang lrs, option_rules_for all_languages lrs ++ option_rules_for lang lrs).
+
+(* selectors read For, Package, Name of the builder and the name of the option: a builder that
+   no builder rule selects keeps them, so "never selected" is a property of the input builder *)
+Definition builder_never_selected (ss : schemas) (brs : list brule) (b : builder) : bool :=
+  forallb (fun r => negb (sel_builder ss (brule_selector r) (header_of b))) brs.
+Definition option_never_selected (ors : list orule) (b : builder) (o : boption) : bool :=
+  forallb (fun r => negb (sel_option (or_sel r) (header_of b) (label_option [] o))) ors.
+
+Definition same_but_options (a b : builder) : bool :=
+  object_eqb (b_for a) (b_for b) && seqb (b_pkg a) (b_pkg b) && seqb (b_name a) (b_name b)
+  && leqb field_eqb (b_props a) (b_props b) && constructor_eqb (b_ctor a) (b_ctor b)
+  && leqb factory_eqb (b_factories a) (b_factories b).
+
+(* every builder no rule selects, with its options no rule selects, is still there, identical *)
+Definition frame_ok (ss : schemas) (lrs : list language_rules) (lang : string) (before after : list builder) : bool :=
+  let '(brs, ors) := rules_in_order lrs lang in
+  forallb (fun b =>
+     if builder_never_selected ss brs b then
+       let kept := filter (option_never_selected ors b) (b_options b) in
+       match kept with
+       | [] => true
+       | _ => existsb (fun b' => same_but_options b b' &&
+                                 forallb (fun o => existsb (boption_eqb o) (b_options b')) kept) after
+       end
+     else true) before.
+
+(* ---------------------------------------------------------------- rule contracts, judged on single-rule runs *)
+Definition single_rule (lrs : list language_rules) (lang : string) : option (brule + orule) :=
+  match rules_in_order lrs lang with
+  | ([r], []) => Some (inl r)
+  | ([], [r]) => Some (inr r)
+  | _ => None
+  end.
+Definition sel_b (ss : schemas) (s : bselector) (b : builder) : bool := sel_builder ss s (header_of b).
+Definition sel_o (s : oselector) (b : builder) (o : boption) : bool := sel_option s (header_of b) (label_option [] o).
+Definition has_opts (b : builder) : bool := match b_options b with [] => false | _ => true end.
+Definition with_name (b : builder) (n : string) : builder :=
+  mkBuilder (b_for b) (b_pkg b) n (b_props b) (b_ctor b) (b_options b) (b_factories b).
+Definition with_options (b : builder) (os : list boption) : builder :=
+  mkBuilder (b_for b) (b_pkg b) (b_name b) (b_props b) (b_ctor b) os (b_factories b).
+Definition with_oname (o : boption) (n : string) : boption :=
+  mkOption n (op_comments o) (op_args o) (op_assignments o) (op_default o).
+
+(* the builder of `after` that continues builder b of `before` (option rules keep For, Package, Name) *)
+Definition continuation (after : list builder) (b : builder) : option builder :=
+  find (fun b' => object_eqb (b_for b) (b_for b') && seqb (b_pkg b) (b_pkg b') && seqb (b_name b) (b_name b')) after.
+
+Fixpoint is_prefix (p q : path) : bool :=
+  match p, q with
+  | [], _ => true
+  | x :: r, y :: s => pathitem_eqb x y && is_prefix r s
+  | _ :: _, [] => false
+  end.
+Definition first_path (o : boption) : option path := match op_assignments o with a :: _ => Some (as_path a) | [] => None end.
+
+(* options of b' that b did not have *)
+Definition new_options (b b' : builder) : list boption :=
+  filter (fun o' => negb (existsb (boption_eqb o') (b_options b))) (b_options b').
+(* "still assigns the same target": every assignment of a produced option goes to the path some
+   selected option assigned first, or below it *)
+Definition same_target (selected : list boption) (o' : boption) : bool :=
+  forallb (fun a' => existsb (fun o => existsb (fun a => is_prefix (as_path a) (as_path a')) (op_assignments o)) selected)
+          (op_assignments o').
+
+Definition option_contract (act : oaction) (sel : oselector) (before after : list builder) : bool :=
+  forallb (fun b =>
+    let selected := filter (sel_o sel b) (b_options b) in
+    match selected with
+    | [] => true
+    | _ =>
+      match continuation after b with
+      | None => (* every option removed: only omit, struct_fields_as_options and disjunction_as_options can do that *)
+          match act with
+          | AOmit | AStructFieldsAsOptions _ | ADisjunctionAsOptions _ => true
+          | _ => false
+          end
+      | Some b' =>
+          let fresh := new_options b b' in
+          match act with
+          | AOmit => forallb (fun o' => negb (sel_o sel b o')) (b_options b') &&
+                     leqb boption_eqb (filter (fun o => negb (sel_o sel b o)) (b_options b)) (b_options b')
+          | ARename n => leqb boption_eqb (map (fun o => if sel_o sel b o then with_oname o n else o) (b_options b)) (b_options b')
+          | ADuplicate n =>
+              leqb boption_eqb (flat_map (fun o => if sel_o sel b o then [o; with_oname o n] else [o]) (b_options b)) (b_options b')
+          | AAddComments cs =>
+              leqb boption_eqb (map (fun o => if sel_o sel b o
+                                              then mkOption (op_name o) (op_comments o ++ cs) (op_args o) (op_assignments o) (op_default o)
+                                              else o) (b_options b)) (b_options b')
+          | AArrayToAppend =>
+              forallb (fun o' => same_target selected o' &&
+                                 match op_assignments o' with a :: _ => seqb (as_method a) "append" | [] => false end &&
+                                 existsb (fun o => seqb (op_name o) (op_name o') && opt_eqb path_eqb (first_path o) (first_path o')) selected) fresh
+          | AMapToIndex =>
+              forallb (fun o' => same_target selected o' &&
+                                 match op_assignments o' with a :: _ => seqb (as_method a) "index" | [] => false end) fresh
+          | AUnfoldBoolean tn fn =>
+              forallb (fun o' => same_target selected o' && (seqb (op_name o') tn || seqb (op_name o') fn) &&
+                                 match op_args o', op_assignments o' with
+                                 | [], [a] => match as_value a with
+                                              | AValue None (DBool v) None => Bool.eqb v (seqb (op_name o') tn) || seqb tn fn
+                                              | _ => false
+                                              end &&
+                                              existsb (fun o => opt_eqb path_eqb (first_path o) (Some (as_path a))) selected
+                                 | _, _ => false
+                                 end) fresh
+          | AStructFieldsAsArguments _ | AStructFieldsAsOptions _ | ADisjunctionAsOptions _ =>
+              forallb (same_target selected) fresh
+          | ARenameArguments _ | AAddAssignment _ => true
+          end
+      end
+    end) before.
+
+Definition builder_contract (ss : schemas) (r : brule) (before after : list builder) : bool :=
+  match r with
+  | BROmit s =>
+      forallb (fun b' => negb (sel_b ss s b')) after &&
+      builders_eqb (filter has_opts (filter (fun b => negb (sel_b ss s b)) before)) after
+  | BRRename s n =>
+      builders_eqb (filter has_opts (map (fun b => if sel_b ss s b then with_name b n else b) before)) after
+  | BRDuplicate s n excl =>
+      builders_eqb (filter has_opts
+         (before ++ map (fun b => with_name (match excl with
+                                             | [] => b
+                                             | _ => with_options b (filter (fun o => negb (string_in_list_equal_fold (op_name o) excl)) (b_options b))
+                                             end) n)
+                        (filter (sel_b ss s) before))) after
+  | _ => true
+  end.
+
+(* `duplicate` as the LAST rule of a sequence: the copy equals its source as both appear in the result *)
+Definition last_builder_rule (lrs : list language_rules) (lang : string) : option brule :=
+  match option_rules_for lang lrs, rev (builder_rules_for lang lrs) with
+  | [], r :: _ => Some r
+  | _, _ => None
+  end.
+Definition last_duplicate_ok (ss : schemas) (lrs : list language_rules) (lang : string) (after : list builder) : bool :=
+  match last_builder_rule lrs lang with
+  | Some (BRDuplicate s n excl) =>
+      (* the copies are the trailing builders named n; each source selected by s that is not itself a trailing copy *)
+      let sources := filter (fun b => sel_b ss s b) after in
+      forallb (fun b =>
+         existsb (fun c => builder_eqb c (with_name (match excl with
+                                                      | [] => b
+                                                      | _ => with_options b (filter (fun o => negb (string_in_list_equal_fold (op_name o) excl)) (b_options b))
+                                                      end) n)) after
+         || negb (has_opts (match excl with
+                            | [] => b
+                            | _ => with_options b (filter (fun o => negb (string_in_list_equal_fold (op_name o) excl)) (b_options b))
+                            end))) sources
+  | _ => true
+  end.
+
+(* ---------------------------------------------------------------- verdicts on one case *)
+Definition in_claim (c : vcase) : bool :=
+  aliases_acyclic (c_ss c) && consistent (c_ss c) (c_before c) && WTs (c_ss c) (c_before c).
+
+Definition pf_wt (c : vcase) : bool :=
+  in_claim c && files_wf (c_files c) &&
+  match c_after c with Ok bs => negb (WTs (c_ss c) bs) | _ => false end.
+Definition pf_frame (c : vcase) : bool :=
+  in_claim c &&
+  match c_after c, rewriter_from (c_files c) with
+  | Ok bs, Ok lrs => negb (frame_ok (c_ss c) lrs (c_lang c) (c_before c) bs)
+  | _, _ => false
+  end.
+Definition pf_contract (c : vcase) : bool :=
+  in_claim c &&
+  match c_after c, rewriter_from (c_files c) with
+  | Ok bs, Ok lrs =>
+      negb (match single_rule lrs (c_lang c) with
+            | Some (inl r) => builder_contract (c_ss c) r (c_before c) bs
+            | Some (inr r) => option_contract (or_action r) (or_sel r) (c_before c) bs
+            | None => true
+            end && last_duplicate_ok (c_ss c) lrs (c_lang c) bs)
+  | _, _ => false
+  end.
+Definition ven_in_claim (c : vcase) : bool := in_claim c.
+Definition ven_single (c : vcase) : bool :=
+  match rewriter_from (c_files c) with Ok lrs => match single_rule lrs (c_lang c) with Some _ => true | None => false end | _ => false end.
+Definition ven_selects (c : vcase) : bool :=
+  match rewriter_from (c_files c) with
+  | Ok lrs => let '(brs, ors) := rules_in_order lrs (c_lang c) in
+              existsb (fun b => negb (builder_never_selected (c_ss c) brs b) ||
+                                existsb (fun o => negb (option_never_selected ors b o)) (b_options b)) (c_before c)
+  | _ => false
+  end.
